@@ -11,7 +11,7 @@ RULE = ('A real BP agent with one transmit route whose MTU is drawn relative to 
         'size, header+{1,2,3,12,23,24,25,255,256,257}, 64..70000) sends a bundle that is either originated locally '
         '(Agent.send_bundle on a container built field by field) or received and forwarded.  Payload lengths sit on '
         'the CBOR head boundaries 23/24, 255/256, 65535/65536 +-1 (and random), CRC type per block, 0-3 extension blocks '
-        'with and without the replicate flag, flags NO_FRAGMENT / already-a-fragment on or off.  A grid payload length x '
+        'with and without the replicate flag (alone or next to other block processing flags), flags NO_FRAGMENT / already-a-fragment on or off.  A grid payload length x '
         'MTU offset x CRC x replicate is enumerated.  Oracle on the byte strings handed to the convergence layer, parsed '
         'independently: if the bundle may and must be fragmented and a fragment with one payload octet fits (feasible, '
         'computed with the independent encoder): every string <= MTU, fragments carry identity + fragment flag + own '
@@ -47,8 +47,11 @@ def cases(draw):
     plen = draw(st.one_of(st.sampled_from(LENGTHS), st.integers(0, 3000)))
     ext = []
     for _ in range(draw(st.integers(0, 3))):
+        kind = draw(st.sampled_from(['unknown', 'hop', 'age']))
         ext.append({'repl': draw(st.booleans()), 'crc': draw(st.sampled_from([0, 1, 2])),
-                    'kind': draw(st.sampled_from(['unknown', 'hop', 'age'])), 'dlen': draw(st.sampled_from([0, 3, 30]))})
+                    'kind': kind, 'dlen': draw(st.sampled_from([0, 3, 30])),
+                    # further block processing control flags next to the replicate bit
+                    'xflags': draw(st.sampled_from([0, 0, 0x02, 0x10, 0x12] if kind != 'unknown' else [0, 0, 0x02]))})
     return {'mode': draw(st.sampled_from(['originate', 'forward'])), 'plen': plen, 'pseed': draw(st.integers(0, 99)),
             'pcrc': draw(st.sampled_from([0, 1, 2])), 'ycrc': draw(st.sampled_from([0, 1, 2])), 'ext': ext,
             'no_fragment': draw(st.sampled_from([False, False, False, True])),
@@ -70,7 +73,8 @@ def enumerate_cases(tier):
     offsets = [-1, 0, 1, 2, 3, 12, 24, 256] if tier == 'quick' else [-5, -1, 0, 1, 2, 3, 12, 23, 24, 25, 255, 256, 257, 1000]
     for mode, plen, off, crc, repl in itertools.product(('originate', 'forward'), lengths, offsets, (0, 1, 2), (False, True)):
         yield {'mode': mode, 'plen': plen, 'pseed': 1, 'pcrc': crc, 'ycrc': crc,
-               'ext': [{'repl': repl, 'crc': crc, 'kind': 'unknown', 'dlen': 3}, {'repl': not repl, 'crc': 0, 'kind': 'hop', 'dlen': 0}],
+               'ext': [{'repl': repl, 'crc': crc, 'kind': 'unknown', 'dlen': 3, 'xflags': 0x02 if crc == 1 else 0},
+                       {'repl': not repl, 'crc': 0, 'kind': 'hop', 'dlen': 0, 'xflags': 0x10 if crc == 2 else 0}],
                'no_fragment': False, 'is_fragment': False, 'mtu_kind': 'header', 'mtu_off': off, 'mtu_abs': 0,
                'src': ['dtn', '//src/'], 'dest': ['dtn', '//far/away'], 'ts': [1000, 1], 'flags': 0}
 
@@ -102,7 +106,7 @@ def build(case):
             tcode, data = 7, r.btsd_age(77)
         else:
             tcode, data = 192 + idx, strat9174.content(ext['dlen'], idx).hex()
-        blocks.append(dict(type=tcode, num=2 + idx, flags=1 if ext['repl'] else 0, crc_type=ext['crc'], data=data))
+        blocks.append(dict(type=tcode, num=2 + idx, flags=(1 if ext['repl'] else 0) | int(ext.get('xflags', 0)), crc_type=ext['crc'], data=data))
     blocks.append(dict(type=1, num=1, flags=0, crc_type=case['ycrc'], data=strat9174.content(case['plen'], case['pseed']).hex()))
     src = case['src'] if r.eid_text(case['src']) != NODE else ['dtn', '//src/']
     pri = dict(version=7, flags=flags, crc_type=case['pcrc'], dest=case['dest'], src=src, rpt=['dtn', 'none'],
